@@ -873,6 +873,21 @@ class Engine(object):
                         new = new.with_field(k, v)
                     return [(st2, new, None)]
                 return [(st, ExternalMethod(_replace, base, attr))]
+            # a class-level constant read through the instance (`self.table[...]`): a name assigned once, at class level, to a
+            # literal - evaluated in the class's module (instances never assign it: it would be a field then)
+            cr = self.class_by_name(base.cls)
+            if cr is not None:
+                hits = [n for n in cr.node.body if isinstance(n, ast.Assign) and len(n.targets) == 1
+                        and isinstance(n.targets[0], ast.Name) and n.targets[0].id == attr]
+                if len(hits) == 1 and isinstance(hits[0].value, (ast.Dict, ast.Tuple, ast.List, ast.Constant)):
+                    saved = self.cur_mod
+                    self.cur_mod = cr.mod
+                    try:
+                        r = self.ev(hits[0].value, State({}, st.pc, None, st.trace, st.rand, st.ghost))
+                    finally:
+                        self.cur_mod = saved
+                    if len(r) == 1 and not isinstance(r[0][1], Raised):
+                        return [(st, r[0][1])]
             raise EngineError("object of class %s has no modelled attribute %s" % (base.cls, attr))
         if isinstance(base, ExcV):
             # attributes of a repository exception = the arguments of its __init__, by name
